@@ -207,10 +207,12 @@ func (d *DB) open() error {
 		return err
 	}
 	// the row store installs its memstore asynchronously; a query issued before
-	// that dereferences nil (startup race in zenodb, see DESIGN.md) — wait.
+	// that dereferences nil, and a Close issued before the WAL-processing
+	// goroutine has registered its task panics in sync.WaitGroup (startup races
+	// in zenodb, see DESIGN.md incidental findings) — wait for both.
 	deadline := time.Now().Add(d.Timeout)
 	for _, t := range d.Cfg.Tables {
-		for !zenodb.VerifReady(z, strings.ToLower(t.Name)) {
+		for !zenodb.VerifReady(z, strings.ToLower(t.Name)) || !zenodb.VerifWALProcessingStarted(z, strings.ToLower(t.Name)) {
 			if time.Now().After(deadline) {
 				d.TimedOut = true
 				return fmt.Errorf("row store of %s never became ready", t.Name)
